@@ -18,7 +18,7 @@ out.append('# Seeded property-breaking changes and what catches them\n')
 out.append('Every change below was written by an independent sub-agent that saw only the text of one property and a scratch '
            'worktree of /repo (nothing from /verif), keeps the 294 baseline tests green, and comes with a demonstration '
            '(`demo.py`: exit 0 on the unchanged tree, non-zero with the change). Each was confirmed here in a fresh scratch '
-           'worktree. `Cxx-m1/m2` are the first wave, `Cxx-m3/m4` the second, `Cxx-m5/m6` the third, `Cxx-m7/m8` the fourth (the authors of the later waves '
+           'worktree. `Cxx-m1/m2` are the first wave, `Cxx-m3/m4` the second, `Cxx-m5/m6` the third, `Cxx-m7/m8` the fourth, `Cxx-m9/m10` the fifth (the authors of the later waves '
            'were told in a few lines what the earlier changes for their property did, to avoid repeats). To re-run one: `tools/seedcheck.sh seeded/<id> quick <property>`; all of '
            'them: `tools/seeds_verify.sh`.\n')
 missed = [m for m in rows if 'MISSED' in m['checks_run'] or 'harness error' in m['checks_run']]
